@@ -9,6 +9,7 @@ don't-care); hub and router meshes must keep flooding / dropping; all 65536 tag-
 normalisation.  Table level (ClaimTable::cache / expiry / remove_claims): checks/tablecommon (shared with C11/C12)."""
 import os
 import vplib as V
+from checks import cloudcommon
 from checks import fwdcommon as F
 
 PID = "C13"
@@ -65,6 +66,7 @@ def run(tier, out):
     }
     cov["states"] += cov_table.get("states", 0)
     cov["transitions"] += cov_table.get("transitions", 0)
+    cloudcommon.part(PID, tier, out, cov)
     return out.finish("model_checking", cov, assumptions=[
         "switch timeout 10 s in the recorded runs (configuration value), ticks are housekeeping rounds; the tick at exactly t0 + timeout is a don't-care",
         "MockDevice reports a TUN device: 'normal mode on tap devices' is exercised as explicit switch mode"])
